@@ -21,42 +21,49 @@ func TestMain(m *testing.M) { hx.Main(m, "C07") }
 func TestSystemPredicate(t *testing.T) {
 	hx.Check(t, hx.N{Quick: 36000, Thorough: 300000}, func(t *rapid.T, c *hx.Case) {
 		hx.Reset(hx.Epoch + uint64(rapid.IntRange(0, 999).Draw(t, "t0")))
-		nr := rapid.IntRange(0, 3).Draw(t, "nrules")
-		var rules []*system.Rule
-		for i := 0; i < nr; i++ {
-			mt := system.MetricType(rapid.IntRange(0, 4).Draw(t, "metric"))
-			var trig float64
+		drawTrig := func(mt system.MetricType) float64 {
 			switch mt {
 			case system.InboundQPS:
-				trig = rapid.SampledFrom([]float64{0, 1, 2, 2.5, 4, 6}).Draw(t, "trig")
+				return rapid.SampledFrom([]float64{0, 1, 2, 2.5, 4, 6}).Draw(t, "trig")
 			case system.Concurrency:
-				trig = rapid.SampledFrom([]float64{0, 1, 2, 2.5, 3, 4}).Draw(t, "trig")
+				return rapid.SampledFrom([]float64{0, 1, 2, 2.5, 3, 4}).Draw(t, "trig")
 			case system.AvgRT:
-				trig = rapid.SampledFrom([]float64{0, 1, 5, 20, 100, 99.5}).Draw(t, "trig")
+				return rapid.SampledFrom([]float64{0, 1, 5, 20, 100, 99.5}).Draw(t, "trig")
 			case system.Load:
-				trig = rapid.SampledFrom([]float64{0, 1, 2.5}).Draw(t, "trig")
-			case system.CpuUsage:
-				trig = rapid.SampledFrom([]float64{0, 0.5, 0.9, 1}).Draw(t, "trig")
+				return rapid.SampledFrom([]float64{0, 1, 2.5}).Draw(t, "trig")
 			}
+			return rapid.SampledFrom([]float64{0, 0.5, 0.9, 1}).Draw(t, "trig")
+		}
+		drawRule := func(id int) *system.Rule {
+			mt := system.MetricType(rapid.IntRange(0, 4).Draw(t, "metric"))
 			st := system.NoAdaptive
 			if rapid.Bool().Draw(t, "bbr") {
 				st = system.BBR
 			}
-			rules = append(rules, &system.Rule{ID: fmt.Sprint(i), MetricType: mt, TriggerCount: trig, Strategy: st})
-			c.Op("rule %d %v trigger=%v strategy=%v", i, mt, trig, st)
+			return &system.Rule{ID: fmt.Sprint(id), MetricType: mt, TriggerCount: drawTrig(mt), Strategy: st}
 		}
-		cp := make([]*system.Rule, len(rules))
-		for i, r := range rules {
-			x := *r
-			cp[i] = &x
+		var rules []*system.Rule
+		load := func(why string) { // the module gets private copies: the reference keeps its own
+			cp := make([]*system.Rule, len(rules))
+			for i, r := range rules {
+				x := *r
+				cp[i] = &x
+				c.Op("%s: rule %s %v trigger=%v strategy=%v", why, r.ID, r.MetricType, r.TriggerCount, r.Strategy)
+			}
+			if _, err := system.LoadRules(cp); err != nil {
+				t.Fatalf("LoadRules: %v", err)
+			}
+			if got := len(system.GetRules()); got != len(rules) {
+				t.Fatalf("%d valid rules loaded, module reports %d", len(rules), got)
+			}
 		}
-		if _, err := system.LoadRules(cp); err != nil {
-			t.Fatalf("LoadRules: %v", err)
+		nr := rapid.IntRange(0, 3).Draw(t, "nrules")
+		for i := 0; i < nr; i++ {
+			rules = append(rules, drawRule(i))
 		}
-		if got := len(system.GetRules()); got != len(rules) {
-			t.Fatalf("%d valid rules loaded, module reports %d", len(rules), got)
-		}
-		load, cpu := -1.0, -1.0
+		load("load")
+		reloaded := false
+		sysLoad, cpu := -1.0, -1.0
 		var evs model.Events // inbound aggregate only, built by the reference
 		type lv struct {
 			id      int
@@ -76,17 +83,44 @@ func TestSystemPredicate(t *testing.T) {
 		n := rapid.IntRange(1, 50).Draw(t, "n")
 		for i := 0; i < n; i++ {
 			now := hx.C.Ms()
-			switch op := rapid.IntRange(0, 5).Draw(t, "op"); {
+			switch op := rapid.IntRange(0, 6).Draw(t, "op"); {
+			case op == 6: // reload: the list changes in one field of one rule, or by one rule; the latest list is what gates
+				switch k := rapid.IntRange(0, 4).Draw(t, "edit"); {
+				case k == 0 && len(rules) > 0: // strategy only
+					r := rules[rapid.IntRange(0, len(rules)-1).Draw(t, "which")]
+					if r.Strategy == system.BBR {
+						r.Strategy = system.NoAdaptive
+					} else {
+						r.Strategy = system.BBR
+					}
+				case k == 1 && len(rules) > 0: // trigger only
+					r := rules[rapid.IntRange(0, len(rules)-1).Draw(t, "which")]
+					r.TriggerCount = drawTrig(r.MetricType)
+				case k == 2 && len(rules) > 0: // metric type (and a trigger of that type)
+					j := rapid.IntRange(0, len(rules)-1).Draw(t, "which")
+					nr := drawRule(j)
+					nr.ID = rules[j].ID
+					rules[j] = nr
+				case k == 3 && len(rules) > 0:
+					j := rapid.IntRange(0, len(rules)-1).Draw(t, "which")
+					rules = append(rules[:j:j], rules[j+1:]...)
+				default:
+					if len(rules) < 4 {
+						rules = append(rules, drawRule(10+i))
+					}
+				}
+				load("reload")
+				reloaded = true
 			case op == 0:
 				dt := uint64(rapid.SampledFrom([]int{1, 7, 100, 499, 500, 501, 1000, 1500}).Draw(t, "dt"))
 				hx.C.AddMs(dt)
 				c.Op("advance %d", dt)
 			case op == 1:
-				load = rapid.SampledFrom([]float64{0, 0.5, 1, 2, 3}).Draw(t, "load")
+				sysLoad = rapid.SampledFrom([]float64{0, 0.5, 1, 2, 3}).Draw(t, "load")
 				cpu = rapid.SampledFrom([]float64{0, 0.4, 0.6, 0.95}).Draw(t, "cpu")
-				system_metric.SetSystemLoad(load)
+				system_metric.SetSystemLoad(sysLoad)
 				system_metric.SetSystemCpuUsage(cpu)
-				c.Op("load=%v cpu=%v", load, cpu)
+				c.Op("load=%v cpu=%v", sysLoad, cpu)
 			case op == 2 || op == 3 || (op == 4 && len(lives) == 0):
 				inbound := rapid.IntRange(0, 3).Draw(t, "inbound") > 0
 				tt := base.Outbound
@@ -132,10 +166,10 @@ func TestSystemPredicate(t *testing.T) {
 							violated[r.ID] = avg
 						}
 					case system.Load:
-						if load > r.TriggerCount && (r.Strategy != system.BBR || overCapacity) {
-							violated[r.ID] = load
+						if sysLoad > r.TriggerCount && (r.Strategy != system.BBR || overCapacity) {
+							violated[r.ID] = sysLoad
 						}
-						if load > r.TriggerCount && r.Strategy == system.BBR {
+						if sysLoad > r.TriggerCount && r.Strategy == system.BBR {
 							bbrDecides = true
 						}
 					case system.CpuUsage:
@@ -148,7 +182,7 @@ func TestSystemPredicate(t *testing.T) {
 					}
 				}
 				e, blk := sentinel.Entry(res, sentinel.WithTrafficType(tt), sentinel.WithBatchCount(batch))
-				c.Op("t=%d Entry(%s inbound=%v batch=%d) qps=%v conc=%d avgRt=%v load=%v cpu=%v overCap=%v -> blocked=%v", now, res, inbound, batch, qps, conc, avg, load, cpu, overCapacity, blk != nil)
+				c.Op("t=%d Entry(%s inbound=%v batch=%d) qps=%v conc=%d avgRt=%v load=%v cpu=%v overCap=%v -> blocked=%v", now, res, inbound, batch, qps, conc, avg, sysLoad, cpu, overCapacity, blk != nil)
 				if e != nil {
 					lives = append(lives, &lv{next, e, now, inbound, batch})
 					next++
@@ -162,7 +196,7 @@ func TestSystemPredicate(t *testing.T) {
 				}
 				expBlock := len(violated) > 0
 				if expBlock != (blk != nil) {
-					t.Fatalf("t=%d inbound request: reference says violated rules=%v (qps=%v conc=%d avgRt=%v load=%v cpu=%v peak=%v/s minRt=%d overCapacity=%v), library returned block=%v", now, violated, qps, conc, avg, load, cpu, peak, minRt, overCapacity, blk)
+					t.Fatalf("t=%d inbound request: reference says violated rules=%v (qps=%v conc=%d avgRt=%v load=%v cpu=%v peak=%v/s minRt=%d overCapacity=%v), library returned block=%v", now, violated, qps, conc, avg, sysLoad, cpu, peak, minRt, overCapacity, blk)
 				}
 				if blk != nil {
 					sawInBlock = true
@@ -201,6 +235,7 @@ func TestSystemPredicate(t *testing.T) {
 		}
 		c.ClassIf(sawInBlock && sawInPass && sawOut, "both-inbound-outcomes+outbound")
 		c.ClassIf(bbrDecides, "bbr-capacity-term-consulted")
+		c.ClassIf(reloaded && (sawInBlock || sawInPass), "rules-reloaded-mid-history")
 		if (sawInBlock && sawInPass && sawOut) || bbrDecides {
 			c.NonTrivial()
 		}
